@@ -566,6 +566,37 @@ def run(tier):
                 if o in BAD:
                     rep.violation("gensquashfs-%s-%s" % (o, kind), "gensquashfs with a malformed %s (%r): %s %s" % (kind, lines[i][:80], o, err[:120]),
                                   data={"line": lines[i], "kind": kind})
+    # ---- directory nesting: one pack-file line whose path has n components (the tree walks of the packer are recursive).  Plain build, stack limit
+    #      pinned to the usual 8 MiB so that the outcome does not depend on the environment of the run ----
+    import resource
+    ptools = build.build("plain") + "/bin"
+
+    def deep(n):
+        pf = "%s/deep%d.txt" % (work, n)
+        open(pf, "w").write("dir " + "/".join(["a"] * n) + " 0755 0 0\n")
+        out = "%s/deep%d.sqfs" % (work, n)
+        try:
+            q = subprocess.run([ptools + "/gensquashfs", "-q", "-f", "-F", pf, out], stdout=subprocess.DEVNULL, stderr=subprocess.PIPE, timeout=300,
+                               preexec_fn=lambda: resource.setrlimit(resource.RLIMIT_STACK, (8 << 20, 8 << 20)))
+            rc, err = q.returncode, q.stderr.decode(errors="replace")
+        except subprocess.TimeoutExpired:
+            rc, err = 124, ""
+        left = os.path.exists(out)
+        size = os.path.getsize(out) if left else 0
+        for f in (pf, out):
+            if os.path.exists(f):
+                os.unlink(f)
+        return n, rc, err, left, size
+    for n, rc, err, left, size in [deep(n) for n in ((2000, 20000, 100000, 300000) if tier == "quick" else (2000, 20000, 100000, 200000, 300000, 1000000))]:
+        evaluations += 1
+        if rc == 0 or (rc > 0 and rc < 124 and err.strip() and not left):
+            continue                                         # packed, or refused cleanly
+        what = "hang" if rc == 124 else "signal" if (rc < 0 or rc in (134, 139)) else "leftover" if left else "refuse-silent"
+        rep.violation("gensquashfs-%s-packfile-nesting-%d" % (what, n),
+                      "gensquashfs on a pack file with one directory line of %d path components: %s (exit status %d%s)"
+                      % (n, {"signal": "dies on a signal - stack exhaustion in the recursive tree walk (alloc_inode_num_dfs)", "hang": "does not finish within 300 s",
+                             "leftover": "fails but leaves its output file", "refuse-silent": "fails without a diagnostic"}[what], rc,
+                         ", a %d byte output file is left behind" % size if left else ""), data={"components": n})
     ln = link_graph_stage(tools, work, rep, ev, tier, rng, cfg, src)
     if ln is None:
         ev.write()
